@@ -32,6 +32,7 @@ fn parse_partial(text: &str) -> BddPartialValuation {
 
 /// Executes one case from its textual inputs and writes the observation.
 pub fn run(key: &str, a: &[String], out: &mut Out) {
+    out.begin(key, a);
     match key {
         "C08.vals" => {
             // B => sat_valuations (borrowed)
